@@ -209,6 +209,8 @@ class WakeUp(Monitor):
             w2 = restore(snap)
             w2.hub.probing = True
             System._instance = w2.system
+            from . import globalstate
+            gs = globalstate.enter(w2.gvals)
             try:
                 d2 = w2.dev[name]
                 part = ready_part(d2)
@@ -218,6 +220,7 @@ class WakeUp(Monitor):
                                         f'at t={w.env.now} {name} holds ready part {part.id} and {dwn.name} '
                                         f'accepts it when offered, but no hand-over attempt is pending')
             finally:
+                globalstate.leave(w2.gvals, gs)
                 System._instance = w.system
         w.facts.append('blocked_part_genuinely_blocked')
 
@@ -553,8 +556,9 @@ class CycleMon(Monitor):
 
     def after(self, w, label, ev):
         now = w.env.now
-        if label[0] == 'op' and w.ops[label[1]][0] == 'cycle':
-            self.cur[w.ops[label[1]][1]] = w.ops[label[1]][2]
+        xop = w.executed_op(ev)
+        if xop is not None and xop[0] == 'cycle':
+            self.cur[xop[1]] = xop[2]
         for t in w.hub.tlog:
             k = t[0]
             if k == 'received':
@@ -679,8 +683,8 @@ class ShutdownMon(Monitor):
                                 p._output.id if p._output is not None else None)
         # redundant shutdown / restore must change nothing
         self.noop = None
-        if label[0] == 'op':
-            op = w.ops[label[1]]
+        op = w.executed_op(ev)
+        if op is not None:
             if op[0] in ('shutdown', 'restore'):
                 p = w.dev[op[1]]
                 if (op[0] == 'shutdown') != p.is_operational():
@@ -709,7 +713,8 @@ class ShutdownMon(Monitor):
         if self.noop is not None:
             from . import canon
             if canon.digest(w.system) != self.noop:
-                raise Violation('noop', f'redundant {w.ops[label[1]][0]} of {w.ops[label[1]][1]} changed the state')
+                xop = w.executed_op(ev)
+                raise Violation('noop', f'redundant {xop[0]} of {xop[1]} changed the state')
             w.facts.append('redundant_call_checked')
         actor = dev_by_id(w, w.hub.actor)
         state = {n: v[0] for n, v in self.pre.items()}
